@@ -179,12 +179,15 @@ class Ledger:
 
 def _match(f, o):
     """a finding matches an obligation by name pattern (fnmatch) and, when given, by function."""
-    import fnmatch
+    import re
     pats = f.get("obligations", [])
-    if not any(fnmatch.fnmatchcase(o.name, p) for p in pats):
+    # '*' is the only wildcard; everything else is literal (obligation names contain brackets)
+    if not any(re.fullmatch(".*".join(re.escape(x) for x in p.split("*")), o.name) for p in pats):
         return False
-    fp = f.get("fingerprint")
+    fps = f.get("fingerprints") or {}
+    fp = fps.get(o.name)
     if fp is not None:
+        # residual fingerprint: a further change to the same function changes the residual and is a new violation
         got = o.detail.get("fingerprint")
         if got is None or got != fp:
             return False
